@@ -138,6 +138,16 @@ func init() {
 		Decides:    "the accounting that makes a frame's line number computable: the line of an instruction is found by summing the per-line instruction counts, so every function that lengthens or shortens an instruction stream changes those counts by the same symbolic amount (7 functions, the only ones that assign to Instructions), a prepended prologue shifts the first entry by exactly its byte length, and the functions that move instructions also move every stored offset (catch entries, recorded call sites) that error handling and the stack trace consult.",
 		NotCovered: "that the frames listed are the active call chain and that the line recorded for each emitted instruction is the right source line: relations between a run and the source program.",
 	}
+	props["C15"] = &PropSpec{
+		Rules:      []string{"path/exactlyone", "cover/offsets", "layout/prepend-bytes"},
+		Decides:    "that the value (or error) of an async body reaches its awaiters exactly once: every path through the worker functions settles the promise exactly once, every settlement decrements the promise's wait group once and enqueues the continuations once, every constructor of an unsettled promise increments the wait group once; and that the prologue prepended to generator and async bodies shifts every stored offset (catch entries, recorded call sites) by its own length, without which the property's own generator example crashes.",
+		NotCovered: "that wrapping a body as a generator or async function preserves the values it yields and returns (resumption at the right instruction with the right stack): a relation between two executions.",
+	}
+	props["C16"] = &PropSpec{
+		Rules:      []string{"await/handover", "await/queue-blocking", "path/exactlyone"},
+		Decides:    "the lock protocol that closes the lost-wake-up window of `await` (the AWAIT instruction tests `settled` under the promise's mutex and hands the held mutex to the worker, which registers the continuation before releasing it; the continuation list is only touched under that mutex; every settlement enqueues the continuations exactly once), and the blocking sends on the pool's own bounded task queue that are reachable from a worker or performed under a promise's mutex - each of the latter is a way for the runtime to deadlock and is reported.",
+		NotCovered: "absence of deadlock and lost wake-ups over all interleavings and queue capacities: that is a model-checking question. The five blocking sends of await/queue-blocking are open known findings (one mechanism, F5).",
+	}
 	props["C25"] = &PropSpec{
 		Rules:      []string{"effect/mayfatal-unlock", "path/recoverguard", "path/ctx-blocking"},
 		Decides:    "the `errors rather than crashes` half of the property: (1) no unlock of a sync mutex driven by the program can reach the Go runtime's unrecoverable fatal error (every unpaired Unlock/RUnlock is dominated by a test of state the wrapper tracks); (2) every send, close, reflect.Select and wait-group decrement on an object the program holds is either under a deferred recover() or guarded by a tracked counter; (3) the context-aware channel operations are arms of a select that also watches the context.",
